@@ -318,7 +318,7 @@ class LockCheck(Check):
                 failures.append((r['steps'], sid, msg))
             if r['corr'] != 'ok':
                 mismatches.append({'scenario_id': sid, 'detail': r['corr'][:500]})
-            if r['corr'] == 'ok' and r['mon'] == 'ok' and r['end'] == 'ok':
+            if r['corr'] == 'ok' and r['mon'] == 'ok' and r['end'] == 'ok' and r.get('hb', 'ok') == 'ok':
                 ok_count += 1
         missing = [sid for sid in scen if sid not in results]
         if missing:
@@ -417,6 +417,22 @@ class C07(LockCheck):
     theorems = ['CppUtil.Props.c07_release_enabled_iff', 'CppUtil.Props.c07_release_finishes',
                 'CppUtil.Props.c07_done_absorbing', 'CppUtil.Props.c07_release_once']
     categories = ['guard']
+
+
+class C08(LockCheck):
+    lean_module = 'CppUtil.Props.C08'
+    theorems = ['CppUtil.Props.c08_pess_orders', 'CppUtil.Props.c08_opt_orders', 'CppUtil.Props.c08_pess',
+                'CppUtil.Props.c08_opt', 'CppUtil.Props.c08_monotone', 'CppUtil.Props.c08_mcs_orders']
+    categories = ['hb']
+    assumptions = LockCheck.assumptions + [
+        'happens-before is computed for executions in which every atomic read returns the newest value, with the '
+        'C++20 release-sequence rules; other read-from choices of the C++ memory model are not covered',
+    ]
+
+    def relevant_failure(self, r):
+        if r.get('hb', 'ok').startswith('FAIL'):
+            return r['hb'][5:]
+        return None
 
 
 class C09(LockCheck):
@@ -877,6 +893,7 @@ class C19(ZipfCheck):
 
 
 PROPS = {
+    'C08': C08,
     'C06': C06, 'C18': C18, 'C19': C19,
     'C01': C01, 'C11': C11, 'C12': C12, 'C04': C04, 'C05': C05, 'C14': C14, 'C15': C15, 'C16': C16, 'C17': C17, 'C20': C20, 'C02': C02, 'C03': C03, 'C07': C07, 'C09': C09, 'C10': C10, 'C13': C13,
 }
